@@ -26,6 +26,7 @@ namespace primesieve {
 ///
 class EratSmall : public Wheel30_t
 {
+  PRIMESIEVE_VERIF_FRIEND
 public:
   void init(uint64_t, uint64_t, uint64_t);
   void crossOff(Vector<uint8_t>& sieve);
